@@ -369,6 +369,14 @@ pub fn run(ctx: &Ctx) -> i32 {
             return c;
         }
     }
+    // with a trace-level logger installed (log macros evaluate their arguments only then): structure-free scripts for a few rates
+    for l in [0.1f64, std::f64::consts::LN_2, 3.0, 20.0, 800.0] {
+        let (nx, xbad) = crate::common::with_trace_logging(|| extremes(l, 4));
+        execs += nx;
+        if let Some(w) = xbad {
+            ctx.violation("logging", &format!("with a trace-level logger installed: {}", w), json!({"kind": "logging", "lambda": l}));
+        }
+    }
     let coverage = json!({
         "states": 3 + NBINS,
         "transitions": execs,
@@ -399,6 +407,9 @@ pub fn run(ctx: &Ctx) -> i32 {
 }
 
 pub fn replay(_ctx: &Ctx, case: &Value) -> Result<(bool, String), String> {
+    if case["kind"].as_str() == Some("logging") {
+        return Err("re-derived by running the check itself".into());
+    }
     let name = case["name"].as_str().ok_or("name")?;
     let lambda = case["lambda"].as_f64().ok_or("lambda")?;
     let n = case["n"].as_u64().ok_or("n")? as usize;
